@@ -281,6 +281,18 @@ def p_removals(ctx, scn, op):
     elif op == "remove_missing":
         scn.remove_fully("never")
         scn.remove_hash(scn.sri_of(b"no such content"))
+    elif op == "remove_fully_twice":
+        # a and b share their content: the second full removal finds the content already gone
+        scn.remove_fully("a")
+        scn.remove_fully("b")
+    elif op == "remove_hash_then_fully":
+        scn.remove_hash(ra.value)
+        scn.remove_fully("a")
+    elif op == "remove_write_remove":
+        scn.remove("a")
+        scn.write("a", scn.whole(D))
+        scn.remove("a")
+        scn.remove("never")
     else:
         scn.clear()
     for k in ("a", "b", "c"):
@@ -369,7 +381,7 @@ def tasks(tier, flavours):
     for damage in ("replace", "remove", "truncate"):
         for retrieval in ("read", "stream", "copy", "hard_link"):
             P.append(("p_damaged", dict(damage=damage, retrieval=retrieval)))
-    for op in ("remove", "remove_hash", "remove_fully", "remove_missing", "clear"):
+    for op in ("remove", "remove_hash", "remove_fully", "remove_missing", "remove_fully_twice", "remove_hash_then_fully", "remove_write_remove", "clear"):
         P.append(("p_removals", dict(op=op)))
     for kind in ("invalid-utf8-line", "torn", "nul", "crlf", "bucket-is-dir", "valid-record-unusable-integrity", "valid-record-unusable-integrity-last"):
         P.append(("p_index_garbage", dict(kind=kind)))
